@@ -195,6 +195,13 @@ fn world() -> Bank {
             major_swap_threshold_ticks: TS,
             ..Default::default()
         };
+        // the pool has traded: its adaptive-fee variables are NOT at rest (set_adaptive_fee_constants must reset them —
+        // an accumulator kept across a lowered maximum would exceed it)
+        o.adaptive_fee_variables.last_reference_update_timestamp = 1_000;
+        o.adaptive_fee_variables.last_major_swap_timestamp = 1_000;
+        o.adaptive_fee_variables.volatility_reference = 100_000;
+        o.adaptive_fee_variables.tick_group_index_reference = 5;
+        o.adaptive_fee_variables.volatility_accumulator = 290_000;
         let mut od = Oracle::DISCRIMINATOR.to_vec();
         od.extend_from_slice(bytemuck::bytes_of(&o));
         b.set(k(0xC4, c), pid, 10_000_000, od);
